@@ -500,6 +500,8 @@ def tqdm_tqdm(ex, args, kw):
 
 @method("Record:tqdm", "update")
 def tqdm_update(ex, self, args, kw):
+    for a in args:      # the increment of a progress bar: read, no effect on the program
+        pass
     return None
 
 
